@@ -250,6 +250,12 @@ class ChannelChecker:
     def quiescence(self, sess, loop):
         self.pending_for_idle(loop.time, 'quiescence')
         self.ghosts('quiescence')
+        # `closed` tells whether the channel has been closed
+        self.stats['closed_property_checks'] = self.stats.get('closed_property_checks', 0) + 1
+        if self.channel.closed is not (self.closed_at is not None):
+            self.violation('closed-property', 'channel.closed is %r at quiescence, close() was %s'
+                           % (self.channel.closed,
+                              'called' if self.closed_at is not None else 'never called'))
         # nobody keeps listening to a channel that is closed (whatever became of the activity
         # that closed it while it was doing so)
         waiting = [sub['who'] for sub in self.subs.values() if sub['state'] == 'idle']
